@@ -583,7 +583,7 @@ func c13DrainRows(rows parquet.Rows) ([]parquet.Row, error) {
 // (c) seek to row k2 behind the faulted data page (k2 < 0: none) and read: the pristine rows from k2,
 // (d) seek back to k: reported again.
 // Returns the first error when everything conforms, a *c13RetryErr otherwise.
-func c13RetryRows(rows parquet.Rows, k, k2 int64, pristineFrom func(int64) (any, error)) (any, error) {
+func c13RetryRows(rows parquet.Rows, k, k2 int64, earlier []int64, firstRow int64, strictPast bool, pristineFrom func(int64) (any, error)) (any, error) {
 	defer rows.Close()
 	got, err0 := c13DrainRows(rows)
 	if err0 == nil {
@@ -591,6 +591,38 @@ func c13RetryRows(rows parquet.Rows, k, k2 int64, pristineFrom func(int64) (any,
 	}
 	if !errors.Is(err0, parquet.ErrCorrupted) {
 		return nil, err0
+	}
+	// seek to an EARLIER page (the one cached when the read failed, and others) and read forward
+	// THROUGH the corrupted page: every row delivered is the pristine row with its own number, and the
+	// read that reaches the corrupted page reports the corruption
+	through := func() error {
+		for _, k0 := range earlier {
+			want, err := pristineFrom(k0)
+			if err != nil {
+				return err
+			}
+			if err := rows.SeekToRow(k0); err != nil {
+				return &c13RetryErr{"through", fmt.Sprintf("SeekToRow(%d) refused: %v", k0, err)}
+			}
+			more, err := c13DrainRows(rows)
+			wr := want.([]parquet.Row)
+			if len(more) > len(wr) || !c13Same(more, wr[:len(more)]) {
+				return &c13RetryErr{"through", fmt.Sprintf("after SeekToRow(%d) before the corrupted page the read delivered rows that are not the pristine rows %d..", k0, k0)}
+			}
+			if int64(len(more)) > firstRow-k0 {
+				return &c13RetryErr{"through", fmt.Sprintf("after SeekToRow(%d) the read delivered %d rows, beyond row %d where the corrupted page starts", k0, len(more), firstRow)}
+			}
+			if err == nil {
+				return &c13RetryErr{"through", fmt.Sprintf("after SeekToRow(%d) the read ran through the corrupted page to the end with no error", k0)}
+			}
+			if !errors.Is(err, parquet.ErrCorrupted) {
+				return &c13RetryErr{"through", fmt.Sprintf("after SeekToRow(%d) the read reaching the corrupted page failed with an error that is not ErrCorrupted: %v", k0, err)}
+			}
+		}
+		return nil
+	}
+	if err := through(); err != nil {
+		return nil, err
 	}
 	if more, err := c13DrainRows(rows); err == nil {
 		return nil, &c13RetryErr{"noseek", fmt.Sprintf("a read without a seek after the failed one returned %d rows and no error", len(more))}
@@ -620,15 +652,23 @@ func c13RetryRows(rows parquet.Rows, k, k2 int64, pristineFrom func(int64) (any,
 			return nil, &c13RetryErr{"past", fmt.Sprintf("SeekToRow(%d) refused: %v", k2, err)}
 		}
 		more, err := c13DrainRows(rows)
-		if err != nil {
+		// the property allows "reports it again" here: the async reader keeps returning the first fatal
+		// error whatever is sought (strictPast = false); the synchronous reader must deliver the rows
+		if err != nil && (strictPast || !errors.Is(err, parquet.ErrCorrupted)) {
 			return nil, &c13RetryErr{"past", fmt.Sprintf("after SeekToRow(%d) behind the corrupted page the read failed: %v", k2, err)}
 		}
-		if !c13Same(more, want) {
+		if err != nil && (len(more) > len(want.([]parquet.Row)) || !c13Same(more, want.([]parquet.Row)[:len(more)])) {
+			return nil, &c13RetryErr{"past", fmt.Sprintf("after SeekToRow(%d) behind the corrupted page the read delivered other rows before failing again", k2)}
+		}
+		if err == nil && !c13Same(more, want) {
 			return nil, &c13RetryErr{"past", fmt.Sprintf("after SeekToRow(%d) behind the corrupted page the read returned other rows than the pristine ones", k2)}
 		}
 		if err := into("back"); err != nil {
 			return nil, err
 		}
+	}
+	if err := through(); err != nil {
+		return nil, err
 	}
 	return nil, err0
 }
@@ -664,7 +704,7 @@ func c13DrainPages(pages parquet.Pages) ([]string, error) {
 
 // c13RetryPages: the same at the level of one column chunk (FilePages); a read without a seek after
 // the failure is not judged there (the position is undefined and the next page may be delivered).
-func c13RetryPages(pages parquet.Pages, k, k2 int64, pristineFrom func(int64) (any, error)) (any, error) {
+func c13RetryPages(pages parquet.Pages, k, k2 int64, earlier []int64, firstRow int64, strictPast bool, pristineFrom func(int64) (any, error)) (any, error) {
 	defer pages.Close()
 	got, err0 := c13DrainPages(pages)
 	if err0 == nil {
@@ -672,6 +712,42 @@ func c13RetryPages(pages parquet.Pages, k, k2 int64, pristineFrom func(int64) (a
 	}
 	if !errors.Is(err0, parquet.ErrCorrupted) {
 		return nil, err0
+	}
+	through := func() error {
+		for _, k0 := range earlier {
+			want, err := pristineFrom(k0)
+			if err != nil {
+				return err
+			}
+			if err := pages.SeekToRow(k0); err != nil {
+				return &c13RetryErr{"through", fmt.Sprintf("SeekToRow(%d) refused: %v", k0, err)}
+			}
+			more, err := c13DrainPages(pages)
+			ws := want.([]string)
+			if len(more) > len(ws) || (len(more) > 0 && !reflect.DeepEqual(more, ws[:len(more)])) {
+				return &c13RetryErr{"through", fmt.Sprintf("after SeekToRow(%d) before the corrupted page ReadPage delivered values that are not the pristine ones from row %d", k0, k0)}
+			}
+			var nrows int64
+			for _, v := range more {
+				var n int64
+				if _, e := fmt.Sscanf(v, "|rows=%d", &n); e == nil {
+					nrows += n
+				}
+			}
+			if nrows > firstRow-k0 {
+				return &c13RetryErr{"through", fmt.Sprintf("after SeekToRow(%d) ReadPage delivered %d rows, beyond row %d where the corrupted page starts", k0, nrows, firstRow)}
+			}
+			if err == nil {
+				return &c13RetryErr{"through", fmt.Sprintf("after SeekToRow(%d) ReadPage ran through the corrupted page to the end with no error", k0)}
+			}
+			if !errors.Is(err, parquet.ErrCorrupted) {
+				return &c13RetryErr{"through", fmt.Sprintf("after SeekToRow(%d) the ReadPage reaching the corrupted page failed with an error that is not ErrCorrupted: %v", k0, err)}
+			}
+		}
+		return nil
+	}
+	if err := through(); err != nil {
+		return nil, err
 	}
 	into := func(stage string) error {
 		if err := pages.SeekToRow(k); err != nil {
@@ -698,15 +774,21 @@ func c13RetryPages(pages parquet.Pages, k, k2 int64, pristineFrom func(int64) (a
 			return nil, &c13RetryErr{"past", fmt.Sprintf("SeekToRow(%d) refused: %v", k2, err)}
 		}
 		more, err := c13DrainPages(pages)
-		if err != nil {
+		if err != nil && (strictPast || !errors.Is(err, parquet.ErrCorrupted)) {
 			return nil, &c13RetryErr{"past", fmt.Sprintf("after SeekToRow(%d) behind the corrupted page ReadPage failed: %v", k2, err)}
 		}
-		if !reflect.DeepEqual(any(more), want) {
+		if ws := want.([]string); err != nil && (len(more) > len(ws) || (len(more) > 0 && !reflect.DeepEqual(more, ws[:len(more)]))) {
+			return nil, &c13RetryErr{"past", fmt.Sprintf("after SeekToRow(%d) behind the corrupted page ReadPage delivered other values before failing again", k2)}
+		}
+		if err == nil && !reflect.DeepEqual(any(more), want) {
 			return nil, &c13RetryErr{"past", fmt.Sprintf("after SeekToRow(%d) behind the corrupted page the pages hold other values than the pristine ones", k2)}
 		}
 		if err := into("back"); err != nil {
 			return nil, err
 		}
+	}
+	if err := through(); err != nil {
+		return nil, err
 	}
 	return nil, err0
 }
@@ -878,40 +960,70 @@ func (e *c13Env) accesses(p c13Page, r *rand.Rand) []c13Access {
 		if p.Kind != "dict" && p.FirstRow+p.NumRows < e.rgRows[g] {
 			k2 = p.FirstRow + p.NumRows
 		}
-		add("rows-retry", kr, "", func(d []byte) (any, error) {
-			f, err := c13Open(d)
-			if err != nil {
-				return nil, err
+		// earlier rows to seek back to: in the page just before the faulted one (the page cached when
+		// the sequential read failed): its first and a later row; row 0; a row of a page in between
+		var earlier []int64
+		if p.Kind != "dict" && p.DataOrd > 0 {
+			var before []c13Page
+			for _, q := range e.pages {
+				if q.RG == g && q.Col == col && q.DataOrd >= 0 && q.DataOrd < p.DataOrd && q.NumRows > 0 {
+					before = append(before, q)
+				}
 			}
-			return c13RetryRows(f.RowGroups()[g].Rows(), kr, k2, func(from int64) (any, error) {
-				return e.pristine(fmt.Sprintf("rows-from/%d/%d", g, from), func() (any, error) {
-					pf, err := c13Open(e.data)
-					if err != nil {
-						return nil, err
-					}
-					return c13ReadRows(pf.RowGroups()[g].Rows(), from)
-				})
-			})
-		})
-		add("pages-retry", kr, "", func(d []byte) (any, error) {
-			f, err := c13Open(d)
-			if err != nil {
-				return nil, err
+			if len(before) > 0 {
+				prev := before[len(before)-1]
+				earlier = append(earlier, prev.FirstRow, prev.FirstRow+prev.NumRows-1)
+				if prev.FirstRow != 0 {
+					earlier = append(earlier, 0)
+				}
+				if len(before) > 2 {
+					mid := before[1+r.Intn(len(before)-2)]
+					earlier = append(earlier, mid.FirstRow+r.Int63n(mid.NumRows))
+				}
 			}
-			return c13RetryPages(f.RowGroups()[g].ColumnChunks()[col].Pages(), kr, k2, func(from int64) (any, error) {
-				return e.pristine(fmt.Sprintf("pages-from/%d/%d/%d", g, col, from), func() (any, error) {
-					pf, err := c13Open(e.data)
-					if err != nil {
-						return nil, err
-					}
-					v, err := c13ReadPages(pf.RowGroups()[g].ColumnChunks()[col].Pages(), from)
-					if err != nil {
-						return nil, err
-					}
-					return any(v.([]string)), nil
-				})
+		}
+		rowsFrom := func(from int64) (any, error) {
+			return e.pristine(fmt.Sprintf("rows-from/%d/%d", g, from), func() (any, error) {
+				pf, err := c13Open(e.data)
+				if err != nil {
+					return nil, err
+				}
+				return c13ReadRows(pf.RowGroups()[g].Rows(), from)
 			})
-		})
+		}
+		pagesFrom := func(from int64) (any, error) {
+			return e.pristine(fmt.Sprintf("pages-from/%d/%d/%d", g, col, from), func() (any, error) {
+				pf, err := c13Open(e.data)
+				if err != nil {
+					return nil, err
+				}
+				v, err := c13ReadPages(pf.RowGroups()[g].ColumnChunks()[col].Pages(), from)
+				if err != nil {
+					return nil, err
+				}
+				return any(v.([]string)), nil
+			})
+		}
+		for _, mode := range []string{"", "async-"} {
+			var opts []parquet.FileOption
+			if mode != "" {
+				opts = append(opts, parquet.FileReadMode(parquet.ReadModeAsync))
+			}
+			add(mode+"rows-retry", kr, "", func(d []byte) (any, error) {
+				f, err := c13Open(d, opts...)
+				if err != nil {
+					return nil, err
+				}
+				return c13RetryRows(f.RowGroups()[g].Rows(), kr, k2, earlier, p.FirstRow, mode == "", rowsFrom)
+			})
+			add(mode+"pages-retry", kr, "", func(d []byte) (any, error) {
+				f, err := c13Open(d, opts...)
+				if err != nil {
+					return nil, err
+				}
+				return c13RetryPages(f.RowGroups()[g].ColumnChunks()[col].Pages(), kr, k2, earlier, p.FirstRow, mode == "", pagesFrom)
+			})
+		}
 	}
 	return out
 }
@@ -932,7 +1044,7 @@ func (e *c13Env) pristine(key string, f func() (any, error)) (any, error) {
 // baseline: the same access on the pristine file (memoised)
 func (e *c13Env) baseline(a c13Access, p c13Page) (any, error) {
 	key := fmt.Sprintf("%s/%d/%d/%d", a.Path, p.RG, p.Col, a.K)
-	if !strings.HasPrefix(a.Path, "pages-") && a.Path != "read-dictionary" {
+	if !strings.Contains(a.Path, "pages-") && a.Path != "read-dictionary" {
 		key = fmt.Sprintf("%s/%d/-/%d", a.Path, p.RG, a.K)
 	}
 	if v, ok := e.base.Load(key); ok {
